@@ -1,7 +1,7 @@
 (* Proofs/IPPLemmas.v — the inner-product argument, all lengths 2^k:
    completeness, fast path = generic rounds on pre-scaled generators, the s vector is explicit
    folding, the verifier's verdict is the explicit-fold relation, uniqueness of P, shape errors. *)
-Require Export BP.Model.IPP BP.Proofs.ModLemmas.
+Require Export BP.Model.IPPSpec BP.Proofs.ModLemmas.
 
 Ltac mring := mring_prep; ring.
 
@@ -70,35 +70,9 @@ Section IPPLemmas.
   End Round.
 
   (* ================= the argument on a given challenge list ================= *)
-  Fixpoint create_alg (us : list K) (G H : list MO) (a b : list K) (Q : MO) : list MO * list MO * K * K :=
-    match us with
-    | [] => ([], [], hd f0 a, hd f0 b)
-    | u :: us' =>
-      let ui := finv u in let n := Nat.div2 (length a) in
-      let aL := firstn n a in let aR := skipn n a in let bL := firstn n b in let bR := skipn n b in
-      let GL := firstn n G in let GR := skipn n G in let HL := firstn n H in let HR := skipn n H in
-      let L := msm aL GR +m msm bR HL +m ip aL bR *s Q in
-      let Rr := msm aR GL +m msm bL HR +m ip aR bL *s Q in
-      let '(Ls, Rs, a0, b0) :=
-        create_alg us' (map2 (fold_G u ui) GL GR) (map2 (fold_H u ui) HL HR)
-                   (map2 (fold_a u ui) aL aR) (map2 (fold_b u ui) bL bR) Q in
-      (L :: Ls, Rr :: Rs, a0, b0)
-    end.
-
-  (* explicit-fold acceptance relation: generators folded round by round *)
-  Fixpoint accepts (us : list K) (G H : list MO) (P : MO) (Ls Rs : list MO) (a0 b0 : K) (Q : MO) : Prop :=
-    match us, Ls, Rs with
-    | [], [], [] => P = a0 *s hd m0 G +m b0 *s hd m0 H +m (a0 * b0) *s Q
-    | u :: us', L :: Ls', Rr :: Rs' =>
-      let ui := finv u in let n := Nat.div2 (length G) in
-      accepts us' (map2 (fold_G u ui) (firstn n G) (skipn n G)) (map2 (fold_H u ui) (firstn n H) (skipn n H))
-              (P +m (u * u) *s L +m (ui * ui) *s Rr) Ls' Rs' a0 b0 Q
-    | _, _, _ => False
-    end.
-
   Lemma pow2_S n : (2 ^ S n = 2 * 2 ^ n)%nat. Proof. reflexivity. Qed.
 
-  Theorem ipp_complete_alg : forall us G H a b Q,
+  Theorem ipp_complete_alg : forall (us : list K) (G H : list MO) (a b : list K) (Q : MO),
     (forall u, In u us -> u <> f0) ->
     length a = (2 ^ length us)%nat -> length b = (2 ^ length us)%nat ->
     length G = (2 ^ length us)%nat -> length H = (2 ^ length us)%nat ->
@@ -176,13 +150,6 @@ Section IPPLemmas.
   Qed.
 
   (* ================= fast path: unrolled first round = generic round on pre-scaled generators ================= *)
-  Definition ipp_create_generic (tr : tr_t) (Q : MO) (G H : list MO) (a b : list K)
-    : ipp_proof K MO * tr_t * list K :=
-    let n := length G in
-    let tr0 := innerproduct_domain_sep tr n in
-    let '(Ls, Rs, a0, b0, tr3, us) := ipp_rounds RO (Nat.log2 n) tr0 Q G H a b in
-    (mkIPP Ls Rs a0 b0, tr3, us).
-
   Lemma map2_firstn {A B C} (f : A -> B -> C) n l r : firstn n (map2 f l r) = map2 f (firstn n l) (firstn n r).
   Proof. revert l r; induction n; intros [|x l] [|y r]; simpl; auto. f_equal; apply IHn. Qed.
   Lemma map2_skipn {A B C} (f : A -> B -> C) n l r : skipn n (map2 f l r) = map2 f (skipn n l) (skipn n r).
@@ -219,7 +186,7 @@ Section IPPLemmas.
   Theorem fast_path : forall k tr Q gf hf G H a b,
     length G = (2 ^ k)%nat -> length H = (2 ^ k)%nat -> length gf = (2 ^ k)%nat -> length hf = (2 ^ k)%nat ->
     length a = (2 ^ k)%nat -> length b = (2 ^ k)%nat ->
-    ipp_create RO tr Q gf hf G H a b = ipp_create_generic tr Q (pscale gf G) (pscale hf H) a b.
+    ipp_create RO tr Q gf hf G H a b = ipp_create_generic RO tr Q (pscale gf G) (pscale hf H) a b.
   Proof.
     intros k tr Q gf hf G H a b HG HH Hgf Hhf Ha Hb.
     unfold ipp_create, ipp_create_generic.
@@ -237,23 +204,12 @@ Section IPPLemmas.
   Qed.
 
   (* ================= the s vector ================= *)
-  Fixpoint svec (us : list K) : list K :=
-    match us with
-    | [] => [f1]
-    | u :: us' => map (fmul (finv u)) (svec us') ++ map (fmul u) (svec us')
-    end.
-  Fixpoint svec_inv (us : list K) : list K :=
-    match us with
-    | [] => [f1]
-    | u :: us' => map (fmul u) (svec_inv us') ++ map (fmul (finv u)) (svec_inv us')
-    end.
-
-  Lemma svec_length us : length (svec us) = (2 ^ length us)%nat.
+  Lemma svec_length (us : list K) : length (svec us) = (2 ^ length us)%nat.
   Proof. induction us; simpl; auto. rewrite app_length, !map_length, IHus. lia. Qed.
-  Lemma svec_inv_length us : length (svec_inv us) = (2 ^ length us)%nat.
+  Lemma svec_inv_length (us : list K) : length (svec_inv us) = (2 ^ length us)%nat.
   Proof. induction us; simpl; auto. rewrite app_length, !map_length, IHus. lia. Qed.
 
-  Lemma svec_inv_rev us : svec_inv us = rev (svec us).
+  Lemma svec_inv_rev (us : list K) : svec_inv us = rev (svec us).
   Proof.
     induction us as [|u us IH]; simpl; auto.
     rewrite rev_app_distr, <- !map_rev, <- IH. reflexivity.
@@ -268,7 +224,6 @@ Section IPPLemmas.
     rewrite <- IH. f_equal. rewrite map_app. f_equal. rewrite !map_map. apply map_ext. intros; ring.
   Qed.
 
-  Definition prod_inv (us : list K) : K := fold_right (fun u acc => finv u * acc) f1 us.
 
   Lemma s_build_svec (us : list K) :
     (forall u, In u us -> u <> f0) ->
@@ -302,20 +257,6 @@ Section IPPLemmas.
     now rewrite (proj2 (feqb_false u f0) (Hnz u Hu)).
   Qed.
 
-  (* explicit folding of generators down to one point *)
-  Fixpoint foldG (us : list K) (G : list MO) : MO :=
-    match us with
-    | [] => hd m0 G
-    | u :: us' => let n := Nat.div2 (length G) in
-                  foldG us' (map2 (fold_G u (finv u)) (firstn n G) (skipn n G))
-    end.
-  Fixpoint foldH (us : list K) (H : list MO) : MO :=
-    match us with
-    | [] => hd m0 H
-    | u :: us' => let n := Nat.div2 (length H) in
-                  foldH us' (map2 (fold_H u (finv u)) (firstn n H) (skipn n H))
-    end.
-
   Lemma msm_map_fold_G (u ui : K) (s : list K) : forall GL GR : list MO,
     length GL = length s -> length GR = length s ->
     msm s (map2 (fold_G u ui) GL GR) = msm (map (fmul ui) s) GL +m msm (map (fmul u) s) GR.
@@ -333,7 +274,7 @@ Section IPPLemmas.
     - rewrite IH by congruence. unfold fold_H. mring.
   Qed.
 
-  Lemma foldG_svec : forall us G, length G = (2 ^ length us)%nat -> foldG us G = msm (svec us) G.
+  Lemma foldG_svec : forall (us : list K) (G : list MO), length G = (2 ^ length us)%nat -> foldG us G = msm (svec us) G.
   Proof.
     induction us as [|u us IH]; intros G HG.
     - destruct G as [|g [|]]; simpl in HG; try discriminate. simpl. mring.
@@ -347,7 +288,7 @@ Section IPPLemmas.
       rewrite <- (firstn_skipn n G) at 3.
       rewrite msm_app by (rewrite map_length, svec_length; auto). reflexivity.
   Qed.
-  Lemma foldH_svec : forall us H, length H = (2 ^ length us)%nat -> foldH us H = msm (svec_inv us) H.
+  Lemma foldH_svec : forall (us : list K) (H : list MO), length H = (2 ^ length us)%nat -> foldH us H = msm (svec_inv us) H.
   Proof.
     induction us as [|u us IH]; intros G HG.
     - destruct G as [|g [|]]; simpl in HG; try discriminate. simpl. mring.
@@ -363,7 +304,7 @@ Section IPPLemmas.
   Qed.
 
   (* the acceptance relation as one equation *)
-  Lemma accepts_iff : forall us G H P Ls Rs a0 b0 Q,
+  Lemma accepts_iff : forall (us : list K) (G H : list MO) (P : MO) (Ls Rs : list MO) (a0 b0 : K) (Q : MO),
     length H = length G -> length Ls = length us -> length Rs = length us ->
     (accepts us G H P Ls Rs a0 b0 Q <->
      P +m msm (map (fun u => u * u) us) Ls +m msm (map (fun u => finv u * finv u) us) Rs
